@@ -2587,7 +2587,10 @@ pub fn sum() -> impl Function {
             |values| values.into_iter().map(|f| *f).sum::<i64>().into(),
             |(intervals, size)| {
                 Ok(data_type::Integer::try_from(multiply().super_image(
-                    &DataType::structured_from_data_types([intervals.into(), size.into()]),
+                    &DataType::structured_from_data_types([
+                        intervals.into_interval().into(),
+                        size.into(),
+                    ]),
                 )?)?)
             },
         ),
@@ -2597,7 +2600,10 @@ pub fn sum() -> impl Function {
             |values| values.into_iter().map(|f| *f).sum::<f64>().into(),
             |(intervals, size)| {
                 Ok(data_type::Float::try_from(multiply().super_image(
-                    &DataType::structured_from_data_types([intervals.into(), size.into()]),
+                    &DataType::structured_from_data_types([
+                        intervals.into_interval().into(),
+                        size.into(),
+                    ]),
                 )?)?)
             },
         ),
@@ -2622,7 +2628,10 @@ pub fn sum_distinct() -> impl Function {
             },
             |(intervals, size)| {
                 Ok(data_type::Integer::try_from(multiply().super_image(
-                    &DataType::structured_from_data_types([intervals.into(), size.into()]),
+                    &DataType::structured_from_data_types([
+                        intervals.into_interval().into(),
+                        size.into(),
+                    ]),
                 )?)?)
             },
         ),
@@ -2641,7 +2650,10 @@ pub fn sum_distinct() -> impl Function {
             },
             |(intervals, size)| {
                 Ok(data_type::Float::try_from(multiply().super_image(
-                    &DataType::structured_from_data_types([intervals.into(), size.into()]),
+                    &DataType::structured_from_data_types([
+                        intervals.into_interval().into(),
+                        size.into(),
+                    ]),
                 )?)?)
             },
         ),
